@@ -1621,7 +1621,7 @@ namespace avel {
         auto ret = _mm_getmant_ps(decay(v), _MM_MANT_NORM_p5_1, _MM_MANT_SIGN_src);
         // Note: Returns -1 or 1 for -infinity and +infinity respectively
 
-        ret = _mm_maskz_mov_ps(is_non_zero, ret);
+        ret = _mm_mask_mov_ps(decay(v), is_non_zero, ret);
         ret = _mm_mask_blend_ps(is_infinity, ret, decay(v));
         return vec4x32f{ret};
 
@@ -1636,7 +1636,7 @@ namespace avel {
         auto ret = _mm_getmant_ps(decay(v), _MM_MANT_NORM_p5_1, _MM_MANT_SIGN_src);
         // Note: Returns -1 or 1 for -infinity and +infinity respectively
 
-        ret = _mm_maskz_mov_ps(is_non_zero, ret);
+        ret = _mm_mask_mov_ps(decay(v), is_non_zero, ret);
         ret = _mm_mask_blend_ps(is_infinity, ret, decay(v));
         return vec4x32f{ret};
 
